@@ -125,6 +125,7 @@ type Exec struct {
 	opaque    map[*Term]bool
 	pendingModelT, pendingModelF *Env
 	entangled map[*Term]bool
+	intShadow map[*Term]*Term
 }
 
 func (ex *Exec) touch(fn *ssa.Function) {
@@ -701,7 +702,7 @@ func (w *Worker) newExec(prefix []uint64) *Exec {
 		globals: map[*ssa.Global]*Value{}, initDone: map[*ssa.Package]bool{},
 		domains: map[*Term]*dom{}, prefix: prefix, budget: w.run.cfg.Budget,
 		byteConsts: &w.byteCs, emptyStr: &Str{conc: true}, funcsTouched: map[*ssa.Function]map[int]bool{},
-		nowUnix: 1700000000, opaque: map[*Term]bool{}, entangled: map[*Term]bool{}}
+		nowUnix: 1700000000, opaque: map[*Term]bool{}, entangled: map[*Term]bool{}, intShadow: map[*Term]*Term{}}
 	ex.vfs = newVFS()
 	return ex
 }
@@ -775,6 +776,9 @@ func (w *Worker) runPath(prefix []uint64) {
 	}
 	if status == "budget" {
 		ex.reportViolation("unwind", msg)
+	}
+	if status == "bigexp" {
+		ex.reportViolation("cost", msg)
 	}
 	r.resMu.Lock()
 	r.status[status]++
@@ -895,6 +899,9 @@ func (ex *Exec) Assert(cond *Term, msg string) {
 		if res == Sat {
 			ex.recordViolation("assert", msg, env)
 		} else if res == Unsat {
+			if ex.uncertain {
+				panic(pathAbort{"infeasible", "path kept after an unknown feasibility answer turned out infeasible"})
+			}
 			// must not happen: the executor only follows feasible branches
 			panic(pathAbort{"engine-error", "reached an assertion on an infeasible path (path condition unsat)"})
 		} else if res == Unknown {
